@@ -304,8 +304,21 @@ func c12RegLists() {
 	// Blocking pops go through a caller-supplied node (no breaker). They are only run
 	// when they cannot block: the key holds a non-empty list or a value of another
 	// type (immediate WRONGTYPE); an absent/empty list would sleep in real time.
-	blockSkip := func(e *c12Env, s c12Step) bool { return !e.tw.mB.Exists(s.K[0]) && !(s.X && s.D != 0) }
-	blockGen := func(g *c12G) c12Step { return c12Step{K: []string{g.key("list")}, I: []int64{g.small(1, 3)}} }
+	// I[0]: timeout in ms (BLPopWithTimeout only): 0 = "block until an element arrives",
+	// negative (an error reply), sub-second (go-redis rounds up to 1 s), 1..3 s. None of
+	// them is ever allowed to block: the step runs only when the key exists (non-empty
+	// list: returns at once; other type: WRONGTYPE at once), when the context is dead, or
+	// when the timeout is <= -1 s (immediate "timeout is negative" reply).
+	blockSkip := func(e *c12Env, s c12Step) bool {
+		if e.tw.mB.Exists(s.K[0]) || (s.X && s.D != 0) {
+			return false
+		}
+		return !(s.C == "BLPopWithTimeout" && s.I[0] <= -1000)
+	}
+	blockGen := func(g *c12G) c12Step {
+		ms := []int64{0, 0, -1000, -5000, 300, 500, 1000, 2000, 3000}
+		return c12Step{K: []string{g.key("list")}, I: []int64{ms[g.uni(len(ms))]}}
+	}
 	c12Reg("BLPop", &c12Entry{typ: "list", mtype: "list", skip: blockSkip, gen: blockGen,
 		wrap: func(e *c12Env, ctx context.Context, s c12Step) (any, error) {
 			if s.X {
@@ -342,14 +355,14 @@ func c12RegLists() {
 		}})
 	c12Reg("BLPopWithTimeout", &c12Entry{typ: "list", mtype: "list", skip: blockSkip, gen: blockGen,
 		wrap: func(e *c12Env, ctx context.Context, s c12Step) (any, error) {
-			d := time.Duration(s.I[0]) * time.Second
+			d := time.Duration(s.I[0]) * time.Millisecond
 			if s.X {
 				return e.r.BLPopWithTimeoutCtx(ctx, e.tw.blockA, d, s.K[0])
 			}
 			return e.r.BLPopWithTimeout(e.tw.blockA, d, s.K[0])
 		},
 		ref: func(c red.Cmdable, ctx context.Context, s c12Step) (any, error) {
-			v, err := c.BLPop(ctx, time.Duration(s.I[0])*time.Second, s.K[0]).Result()
+			v, err := c.BLPop(ctx, time.Duration(s.I[0])*time.Millisecond, s.K[0]).Result()
 			if err != nil {
 				return "", err
 			}
